@@ -684,13 +684,11 @@ func (e *Engine) loopIter(st *State, loop ast.Stmt, body *ast.BlockStmt, cond as
 				for _, c := range e.evalCond(s, cond) {
 					conds = append(conds, cb{c.st, c.b})
 				}
-			} else if iterSetup != nil || it < maxIter {
-				if _, isFor := loop.(*ast.ForStmt); isFor && cond == nil {
-					// for { … }: always enters; leaves only through break/return.
-					conds = []cb{{s, true}}
-				} else {
-					conds = []cb{{s.clone(), false}, {s, true}}
-				}
+			} else if _, isFor := loop.(*ast.ForStmt); isFor {
+				// for { … }: always enters; leaves only through break/return (or the iteration bound).
+				conds = []cb{{s, true}}
+			} else {
+				conds = []cb{{s.clone(), false}, {s, true}}
 			}
 			for _, c := range conds {
 				if !c.b || it == maxIter {
